@@ -69,9 +69,13 @@ class HandlerSig:
     kwarg: str | None
 
 
-def signature(fn: ast.FunctionDef) -> HandlerSig:
+def signature(fn: ast.FunctionDef, plain=False) -> HandlerSig:
     a = fn.args
     names = [x.arg for x in a.posonlyargs + a.args]
+    if plain:
+        return HandlerSig("", None, names + [x.arg for x in a.kwonlyargs],
+                          a.vararg.arg if a.vararg else None,
+                          a.kwarg.arg if a.kwarg else None)
     return HandlerSig(
         names[0] if names else "self",
         names[1] if len(names) > 1 else None,
@@ -87,9 +91,10 @@ class Evaluator:
     """Abstract evaluation of one function along one path."""
 
     def __init__(self, fn, *, fields=None, props=None, rec_names=None,
-                 node_param=None, assume_len=None, self_is_node=False):
+                 node_param=None, assume_len=None, self_is_node=False,
+                 plain=False):
         self.fn = fn
-        self.sig = signature(fn)
+        self.sig = signature(fn, plain)
         self.fields = set(fields or ())
         self.props = props or {}          # name -> callable(evaluator) -> value
         self.rec_names = set(rec_names or REC_NAMES)
@@ -103,6 +108,7 @@ class Evaluator:
         self.gen_loads: dict = {}
         self.conds: list = []
         self.feasible = True
+        self.localfuncs: dict = {}
 
     # ------------------------------------------------------------------
     def ev(self, e: ast.AST) -> tuple:
@@ -327,6 +333,12 @@ class Evaluator:
             self.events.append(Event("itemwrite", t, arg=base, name=_src(t.value),
                                      value=v, args=(k,),
                                      in_loops=tuple(self.loops)))
+            if isinstance(t.value, ast.Name) and t.value.id in self.env:
+                src = self.loops[-1] if self.loops else None
+                if base == ("litdict", (), ()):
+                    self.env[t.value.id] = ("dict", k, v, src)
+                else:
+                    self.env[t.value.id] = ("dictextend", base, k, v, src)
 
     # -- calls --------------------------------------------------------------
     def ev_Call(self, e):
@@ -389,6 +401,14 @@ class Evaluator:
                                          if False else name, args, kwargs, loops,
                                          value=recv))
                 return ("call", f"self.{recv[1]}.{name}", args, kwargs)
+            if isinstance(f.value, ast.Name) and f.value.id in self.env \
+                    and name in ("append", "add") and len(args) == 1:
+                prior = self.env[f.value.id]
+                src = self.loops[-1] if self.loops else None
+                if prior[0] == "lit" and not prior[2]:
+                    self.env[f.value.id] = ("seq", prior[1], args[0], src, ())
+                else:
+                    self.env[f.value.id] = ("extend", prior, args[0], src)
             if name in ("values", "keys", "items") and not args:
                 return ({"values": "vals", "keys": "keys", "items": "items"}[name],
                         recv)
@@ -415,6 +435,8 @@ class Evaluator:
             self.events.append(Event("call", e, args[0] if args else None, fwd_a,
                                      fwd_k, args[1:], fname, args, kwargs, loops,
                                      value=recv))
+            if recv[0] not in ("global", "other"):
+                return ("call", fname, args, kwargs, ("recv", recv, name))
             return ("call", fname, args, kwargs)
 
         if isinstance(f, ast.Name):
@@ -452,6 +474,10 @@ class Evaluator:
                 if a[0] == "field" and a[1] in self.assume_len:
                     return ("const", self.assume_len[a[1]])
                 return ("len", a)
+            if n in self.localfuncs and self.env.get(n) == ("localfunc", n):
+                r = self._inline(self.localfuncs[n], args, kwargs)
+                if r is not None:
+                    return r
             self.events.append(Event("call", e, args[0] if args else None, fwd_a,
                                      fwd_k, args[1:], n, args, kwargs, loops,
                                      value=self.env.get(n)))
@@ -469,6 +495,26 @@ class Evaluator:
                                  fwd_k, args[1:], _src(f), args, kwargs, loops,
                                  value=callee))
         return ("call", _src(f), args, kwargs, callee)
+
+    def _inline(self, fn, args, kwargs):
+        """inline a local helper whose body is a single return"""
+        body = [st for st in fn.body if not (
+            isinstance(st, ast.Expr) and isinstance(st.value, ast.Constant))]
+        if len(body) != 1 or not isinstance(body[0], ast.Return) \
+                or body[0].value is None:
+            return None
+        params = [a.arg for a in fn.args.args]
+        if len(args) > len(params):
+            return None
+        saved = dict(self.env)
+        for p, a in zip(params, args):
+            self.env[p] = a
+        for k, v in kwargs:
+            if k in params:
+                self.env[k] = v
+        r = self.ev(body[0].value)
+        self.env = saved
+        return ("inlined", fn.name, r)
 
     # -- conditions ---------------------------------------------------------
     def cond_value(self, test):
@@ -502,6 +548,7 @@ class Evaluator:
             pass
         elif isinstance(s, ast.FunctionDef):
             self.env[s.name] = ("localfunc", s.name)
+            self.localfuncs[s.name] = s
         elif isinstance(s, ast.Delete):
             pass
         else:
@@ -589,13 +636,13 @@ def _src(n):
 # ---------------------------------------------------------------------------
 
 def summarize(fn, *, fields=(), props=None, loop_mode="1", assume_len=None,
-              rec_names=None, self_is_node=False, node_param=None):
+              rec_names=None, self_is_node=False, node_param=None, plain=False):
     """All feasible path summaries of *fn*."""
     out = []
     for items in cfg.paths(fn, loop_mode):
         ev = Evaluator(fn, fields=fields, props=props, assume_len=assume_len,
                        rec_names=rec_names, self_is_node=self_is_node,
-                       node_param=node_param)
+                       node_param=node_param, plain=plain)
         ps = ev.run_path(items)
         if ps is not None:
             out.append(ps)
